@@ -187,7 +187,13 @@ let suite (mode : int) : string =
   done;
   let chars =
     if mode = 0 then List.map (fun a -> int_of_n (atom_rep a)) atoms
+    else if mode = 2 then
+      (* wide-only aliases: after every access string, each class representative shifted by 256 and by 65536: a code point that
+         no rule admits but that looks like a valid character once truncated to 8 or 16 bits; followed by the completion the
+         valid character would have had *)
+      List.concat_map (fun a -> let c = int_of_n (atom_rep a) in [c + 256; c + 65536]) atoms
     else List.init 128 (fun i -> i) @ [128; 200; 255] in
+  let base_of ch = if mode = 2 then (if ch >= 65536 then ch - 65536 else ch - 256) else ch in
   let buf = Buffer.create (1 lsl 20) in
   let emit l = Buffer.add_string buf (match l with [] -> "_" | _ -> String.concat "." (List.map (Printf.sprintf "%x") l)); Buffer.add_char buf ';' in
   Buffer.add_string buf (Printf.sprintf "states=%d;" (List.length states));
@@ -198,7 +204,7 @@ let suite (mode : int) : string =
     List.iter (fun ch ->
       let s1 = acc @ [ch] in
       emit s1;
-      match snd (ptrans c (atom_of (n_of_int ch))) with
+      match snd (ptrans c (atom_of (n_of_int (base_of ch)))) with
       | Go c' -> (match Hashtbl.find_opt comp c' with Some w when w <> [] -> emit (s1 @ w) | _ -> ())
       | Stop _ -> ()) chars) states;
   Buffer.contents buf
